@@ -13,7 +13,10 @@ def AVERAGE(
     https://support.office.com/en-us/article/
         average-function-047bac88-d466-426c-a32b-8f33eb960cf6
     """
-    numbers = xl.flatten(numbers)
+    # Only numbers are averaged; empty cells and text found in ranges are
+    # ignored (they do not count as zeros).
+    numbers = list(
+        filter(func_xltypes.Number.is_type, xl.flatten(numbers)))
 
     # If no non numeric cells, return zero (is what excel does)
     if len(numbers) < 1:
